@@ -30,6 +30,10 @@ func genMesh(seed uint64, tier string) *Plan {
 	p.Knobs["unsub_backoff_s"] = float64(r.rng(1, 10))
 	p.Knobs["graft_flood_ms"] = float64(r.rng(0, pb*1000))
 	p.Knobs["opp_ticks"] = float64(r.rng(1, 8))
+	if r.chance(0.04) {
+		// zero is accepted by the parameter validation ("every N ticks" with N = 0)
+		p.Knobs[[]string{"opp_ticks", "direct_ticks"}[r.intn(2)]] = 0
+	}
 	p.Knobs["opp_peers"] = float64(r.rng(1, 2))
 	p.Knobs["oppgraft_thr"] = float64(r.rng(0, 5))
 	p.Knobs["queue_size"] = float64([]int{2, 4, 32, 32}[r.intn(4)])
